@@ -81,7 +81,7 @@ func loadEngine(repo string, specFiles []string) (*Engine, error) {
 	var files []string
 	for _, p := range pkgs {
 		for _, f := range p.CompiledGoFiles {
-			if strings.HasSuffix(f, "zz_contracts_verif.go") {
+			if strings.Contains(filepath.Base(f), "zz_contracts") && strings.HasSuffix(f, "_verif.go") {
 				files = append(files, f)
 			}
 		}
